@@ -226,7 +226,10 @@ mod verif_search {
             let mut c2 = ClientCrypto::new(key);
             let mut wire: Vec<u8> = Vec::new();
             let mut hdrs = Vec::new();
-            for _ in 0..12 {
+            // rounds 0..19: 12 headers; rounds 20..59: 70..140 headers, i.e. 300-700 stream bytes (the RC4 counter wraps several times, with
+            // long headers starting at every offset modulo 256 over the rounds)
+            let count = if round < 20 { 12 } else { 70 + (rng.next() % 71) as usize };
+            for _ in 0..count {
                 let size = sizes[(rng.next() % sizes.len() as u64) as usize]; let opcode = rng.next() as u16;
                 let h = server.encrypt_server_header(size, opcode).to_vec();
                 if h.len() != (if size > 0x7FFF { 5 } else { 4 }) { println!("REPLAY-FAIL c10_headers size={:#x} emitted {} bytes", size, h.len()); return; }
@@ -403,6 +406,16 @@ mod verif_search {
             let mut re = RefRc4::wrath(&REF_C2S, &sk);
             let mut rd = RefRc4::wrath(&REF_S2C, &sk);
             let mut cli = Cli::Whole(ClientCrypto::new(sk));
+            // every other session starts a little before a multiple of 256 keystream bytes, so that the following calls end on / straddle
+            // the wrap of the 8-bit RC4 counter with every alignment
+            if session % 2 == 1 {
+                let warm = 240 + (rng.next() % 16) as usize + 256 * (session as usize % 3);
+                let junk: Vec<u8> = (0..warm).map(|_| rng.next() as u8).collect();
+                let want = xor_ref(&mut re, &junk); let mut b = junk.clone(); cli.e().encrypt(&mut b);
+                if b != want { fail!("client encrypt of a {}-byte warm-up differs from the reference", warm); }
+                let want = xor_ref(&mut rd, &junk); let mut b = junk.clone(); cli.d().decrypt(&mut b);
+                if b != want { fail!("client decrypt of a {}-byte warm-up differs from the reference", warm); }
+            }
             for step in 0..40u32 {
                 n += 1;
                 let op = rng.next() % 12;
@@ -483,6 +496,14 @@ mod verif_search {
             let mut re = RefRc4::wrath(&REF_S2C, &sk);
             let mut rd = RefRc4::wrath(&REF_C2S, &sk);
             let mut srv = Srv::Whole(ServerCrypto::new(sk));
+            if session % 2 == 1 {
+                let warm = 240 + (rng.next() % 16) as usize + 256 * (session as usize % 3);
+                let junk: Vec<u8> = (0..warm).map(|_| rng.next() as u8).collect();
+                let want = xor_ref(&mut re, &junk); let mut b = junk.clone(); srv.e().encrypt(&mut b);
+                if b != want { fail!("server encrypt of a {}-byte warm-up differs from the reference", warm); }
+                let want = xor_ref(&mut rd, &junk); let mut b = junk.clone(); srv.d().decrypt(&mut b);
+                if b != want { fail!("server decrypt of a {}-byte warm-up differs from the reference", warm); }
+            }
             for step in 0..40u32 {
                 n += 1;
                 let op = rng.next() % 10;
